@@ -93,14 +93,26 @@ func vsimRun(r *sim.Run) {
 	if t.Chance(700) {
 		var p *work.Production
 		var err error
-		r.Guard("packager", func() {
-			p, err = work.Package(r, work.PackOpts{MaxTracks: 1, MaxSegs: 4, MaxFrags: 3, MaxSamples: 8, Foreign: t.Bool(), Styp: 1, SplitTruns: true})
-		})
-		if err != nil || p == nil {
-			r.Violate("packager-error", "a documented-valid API history failed: %v", err)
-			return
+		if t.Chance(300) {
+			// fragments written byte by byte (values from trex / tfhd defaults, first_sample_flags, two truns)
+			if p, err = work.RawProduce(r, 1, 4, 3, 8); err != nil {
+				panic(sim.HarnessAbort{Msg: "raw fragment producer: " + err.Error()})
+			}
+			for _, s := range p.Segs {
+				s.Bytes = append(work.RawStyp(), s.Bytes...)
+			}
+			stream, name = p.Stream(), "raw-fragment-stream"
+			r.Probe("raw-fragment-production")
+		} else {
+			r.Guard("packager", func() {
+				p, err = work.Package(r, work.PackOpts{MaxTracks: 1, MaxSegs: 4, MaxFrags: 3, MaxSamples: 8, Foreign: t.Bool(), Styp: 1, SplitTruns: true})
+			})
+			if err != nil || p == nil {
+				r.Violate("packager-error", "a documented-valid API history failed: %v", err)
+				return
+			}
+			stream, name = p.Stream(), "packager-stream"
 		}
-		stream, name = p.Stream(), "packager-stream"
 	} else {
 		i := t.Draw(len(vsimFragInputs))
 		stream, name = vsimFragInputs[i], vsimFragNames[i]
